@@ -138,7 +138,7 @@ CONSTANTS Feeds, OpReads, Protocol      \* Feeds: the set of feeds explored in o
    N_read:    \* Channel.Read(): Errs first, then the exited flag
               if (errsWait) { errsWait := FALSE; gotErr := TRUE }
               else if (~V1 /\ errsClosed) { gotErr := FALSE }          \* receive from closed Errs yields nil
-              else { gotErr := exited };
+              else { gotErr := exited \/ (V2 /\ doneClosed) };    \* v2: Channel.Read also reports the closed done signal (a94e4ce)
    N_send:    if (gotErr) {
                 ncErrsWait := TRUE;                                    \* d.errs <- err : nobody receives when idle
    N_sent:      await ~ncErrsWait \/ (V1 /\ ncDoneClosed);
@@ -640,7 +640,7 @@ N_read == /\ pc["ncreader"] = "N_read"
                      /\ gotErr' = TRUE
                 ELSE /\ IF ~V1 /\ errsClosed
                            THEN /\ gotErr' = FALSE
-                           ELSE /\ gotErr' = exited
+                           ELSE /\ gotErr' = (exited \/ (V2 /\ doneClosed))
                      /\ UNCHANGED errsWait
           /\ pc' = [pc EXCEPT !["ncreader"] = "N_send"]
           /\ UNCHANGED << Feed, Closes, CloseUnblocks, Netconf, HasOp, 
